@@ -14,7 +14,7 @@ JUNK = ["FOOBAR this is not a PDB record", "JUNK", "XXXXXX 1 2 3", "REMARK 999 f
 MUTATIONS = ["blank_lines", "ws_lines", "junk", "crlf", "truncate", "ter_variants", "end_missing", "end_repeated",
              "end_midfile", "models", "atoms_before_model", "altloc_interleaved", "altloc_blocked", "icodes",
              "negative_numbers", "blank_chain", "repeated_chain", "water_as_atom", "no_final_newline", "leading_records",
-             "endmdl_only", "tabs_in_junk", "big_serials"]
+             "endmdl_only", "tabs_in_junk", "big_serials", "het_tail_same_numbers"]
 
 
 def apply(items, muts, rng):
@@ -110,6 +110,26 @@ def apply(items, muts, rng):
                 if isinstance(it, dict) and it["chain"] == chains[1]:
                     it["chain"] = chains[0]
                     it["resi"] += 500
+    if "het_tail_same_numbers" in muts:
+        # the usual PDB layout polymer A, polymer B, hetero groups of A, hetero groups of B - with the hetero groups /
+        # waters of different chains carrying the same residue numbers (NA A 101 directly followed by NA B 101)
+        chains = []
+        for it in items:
+            if isinstance(it, dict) and it["resn"] not in ("HOH", "WAT") and it["chain"] and it["chain"] not in chains:
+                chains.append(it["chain"])
+        if len(chains) >= 2:
+            tail = []
+            last = max(i for i, it in enumerate(items) if isinstance(it, dict))
+            x0 = max(it["x"] for it in items if isinstance(it, dict)) + 12.0
+            for k in range(rng.randint(1, 2)):
+                for c, ch in enumerate(chains[:3]):
+                    kind = rng.choice(["ion", "water"])
+                    tail.append(dict(items[last], rec="HETATM", name="NA" if kind == "ion" else "O",
+                                     resn="NA" if kind == "ion" else "HOH", chain=ch, resi=701 + k, icode="", alt="",
+                                     x=x0 + 4.0 * c, y=5.0 * k, z=-7.0, elem="NA" if kind == "ion" else "O"))
+            e = next((i for i, it in enumerate(items) if it == "END"), len(items))
+            items[e:e] = tail + ["TER"]
+            info["het_tail_atoms"] = len(tail)
     if "water_as_atom" in muts:
         choice = {}
         for it in items:
